@@ -19,14 +19,15 @@ LEVEL = "other"
 TECHNIQUE = "symbolic execution (zsym, z3) of bounded histories of annotation requests interleaved with graph edits, renames, clones and proto round trips on the real Node.shard/Model device-configuration code; per-path native re-execution"
 
 
-def build():
+def build(pre=False):
     x = ir.Value(name="x", type=ir.TensorType(ir.DataType.FLOAT), shape=ir.Shape(["N", 4]))
     u = ir.Value(name="u", type=ir.TensorType(ir.DataType.FLOAT), shape=None)  # unknown rank
     a = ir.Node("", "Add", [x, u], name="a")
     a.outputs[0].name = "t"
     a.outputs[0].type = ir.TensorType(ir.DataType.FLOAT)
     a.outputs[0].shape = ir.Shape(["N", 4])
-    b = ir.Node("", "Mul", [a.outputs[0], x], name="b", num_outputs=2)
+    cond = ir.Value(name="cond", type=ir.TensorType(ir.DataType.BOOL), shape=ir.Shape([]))   # rank 0: every axis is out of range
+    b = ir.Node("", "Mul", [a.outputs[0], x, cond], name="b", num_outputs=2)
     b.outputs[0].name = "y"
     b.outputs[1].name = "y2"
     for o in b.outputs:
@@ -38,13 +39,21 @@ def build():
     inner.outputs[0].type = ir.TensorType(ir.DataType.FLOAT)
     inner.outputs[0].shape = ir.Shape(["N", 4])
     body = ir.Graph([], [inner.outputs[0]], nodes=[inner], name="body")
-    cond = ir.Value(name="cond", type=ir.TensorType(ir.DataType.BOOL), shape=ir.Shape([]))
     iff = ir.Node("", "If", [cond], attributes=[ir.AttrGraph("then_branch", body), ir.AttrGraph("else_branch", ir.Graph([], [], nodes=[], name="empty"))], name="iff")
     iff.outputs[0].name = "ifo"
     g = ir.Graph([x, u, cond], [b.outputs[0], iff.outputs[0]], nodes=[a, b, iff], name="main", opset_imports={"": 18})
     m = ir.Model(g, ir_version=11)
     m.add_device_configuration("cfg0", num_devices=2)
     m.add_device_configuration("cfg1", num_devices=3, device_names=("d0", "d1", "d2"))
+    if pre:
+        # pre-state: one value annotated under BOTH configurations on two nodes (three requests deep)
+        c0, c1 = m.device_configurations
+        a.shard(x, configuration=c0, axis=1, num_shards=2, device_indices=[0, 1])
+        a.shard(x, configuration=c1, axis=0, num_shards=3, device_indices=[0, 1, 2])
+        b.shard(x, configuration=c1, axis=1, num_shards=3, device_indices=[0, 1, 2])
+        b.shard(x, configuration=c0, axis=1, num_shards=2, device_indices=[0, 1])
+        b.shard(b.outputs[1], configuration=c0, axis=1, num_shards=2, device_indices=[0, 1])
+        b.shard(b.outputs[1], configuration=c1, axis=1, num_shards=3, device_indices=[0, 1, 2])
     return m
 
 
@@ -131,9 +140,9 @@ OPS = ["shard", "set_pipeline_stage", "add_configuration", "remove_configuration
 NAMES = ["t", "x", "renamed", "cfg0"]
 
 
-def body_for(k, first_op, second_op=None):
+def body_for(k, first_op, second_op=None, pre=False):
     def body(P):
-        m = build()
+        m = build(pre)
         problems = []
         log = []
         for i in range(k):
@@ -216,6 +225,9 @@ def body_for(k, first_op, second_op=None):
 
 
 def make_case(tier, key):
+    pre = key[0] == "pre"
+    if pre:
+        key = (1,) + tuple(key[1:])
     k, first_op = key[0], key[1]
     second_op = key[2] if len(key) > 2 else None
     pin = dict(zip(("n0", "v0"), key[3:5])) if len(key) > 3 else {}
@@ -240,8 +252,8 @@ def make_case(tier, key):
 
     for kk, vv in pin.items():
         ranges[kk] = (vv, vv)
-    label = f"annotations[{k} steps{' ' + str(pin) if pin else ''}" + (f", first {OPS[first_op]}" if first_op is not None else "") + (f", then {OPS[second_op]}]" if second_op is not None else "]")
-    return hist.Case(label, ranges, body_for(k, first_op, second_op),
+    label = f"annotations[{'from a state with one value annotated under both configurations, ' if pre else ''}{k} steps{' ' + str(pin) if pin else ''}" + (f", first {OPS[first_op]}" if first_op is not None else "") + (f", then {OPS[second_op]}]" if second_op is not None else "]")
+    return hist.Case(label, ranges, body_for(k, first_op, second_op, pre),
                      meta=dict(sig=sig, describe=lambda a, o: f"{o['log']} {a}: " + "; ".join(o["problems"][:2])))
 
 
@@ -249,6 +261,7 @@ def keys_for(tier):
     keys = [(1, o) for o in range(len(OPS))]
     keys += [(2, 0, o2) for o2 in range(1, len(OPS))]       # shard ; anything
     keys += [(2, 0, 0, n, v) for n in (0, 1) for v in (0, 1, 2)]   # shard ; shard, split by the first request's node and value
+    keys += [("pre", o) for o in range(len(OPS))]           # anything, from the doubly annotated pre-state
     if tier != "quick":
         keys += [(2, 1, o2) for o2 in range(len(OPS))]      # set_pipeline_stage ; anything
         keys += [(2, o1, 0) for o1 in range(2, len(OPS))]   # anything ; shard
